@@ -191,9 +191,11 @@ def run_check(spec, tier, seed):
                 pred_evals += 1
             pfail = pv is False
         if differs or pfail:
-            mismatches.append((c, m, im))
+            mismatches.append((c, m, im, pfail))
     cov["predicate_evaluations_on_implementation_output"] = pred_evals
-    # failing predicates first
+    # cases whose predicate fails on the implementation's output first, then crashes, then plain differences
+    mismatches.sort(key=lambda x: (not x[3], not any(l.startswith("CRASH:") for l in x[2])))
+    mismatches = [(c, m, im) for c, m, im, _pf in mismatches]
     if bad_ops:
         raise SystemExit("generator produced %d cases the model driver rejects (bad-op)" % bad_ops)
 
